@@ -270,7 +270,7 @@ CLAIMED = {
               'completely after every step, and the well-formedness predicate is evaluated on every real intermediate file; '
               'IOAPI files run the C10 operation sequences under the same predicate plus "TSTEP is unlimited". '
               'Genuine defects repaired by fix: commits.'),
-        note=BASE_NOTE + 'WF-preservation is proved per operation for ten operations; for slice/stack the file-level statement is not proved (their array-level shape theorems are in C02/C03/C04); interpDimension and eval are exercised in C17/C06; IOAPI files are compared with the IOAPI model of C10 and judged by the real-object predicate.',
+        note=BASE_NOTE + 'WF-preservation is proved per operation for twelve operations, sliceDimensions (slice_wf: integers, slices, lists, two or more lists acting together; hypothesis: the new dimension name is free - the repaired code refuses it otherwise) and stack (stack_wf: conforming files, distinct dimension names in the first; a variable that carries the stack dimension twice is answered unspec) included; there is no single theorem over arbitrary operation sequences (each step theorem applies to the state the previous one gives); interpDimension and eval are exercised in C17/C06; IOAPI files are compared with the IOAPI model of C10 and judged by the real-object predicate.',
         technique='Lean 4 proof (shape lemmas by mutual structural induction) + model/implementation correspondence over operation sequences + well-formedness oracle',
         design='§7 C01'),
 }
